@@ -5,15 +5,21 @@ import PdtVerif.Spec.Recoverable
 
 case: {quirks: "fixed"|"pinned", keep_lb, mkeys: [key of epoch 0..], okeys: [..],
        metrics: [[train|null, val|null] ..]  (epoch 1..n), best_is_train  (`deciding` picks the column),
+       red: [null | lr id ..]  (epoch 1..n: the learning rate `update_for_epoch(e)` writes into the
+                                optimizer before it saves; absent = no reduction anywhere),
        sched: [{epoch, k, torn, rm: [[kind,key]..]} ..]}   -- one killed session each; `torn`: call k
                                                             -- is executed half-way (`tornDisk tear`)
-reply: {sessions: [..], final: ..} — see `sessionJ`.
+reply: {sessions: [..], final: ..} — see `sessionJ`. A state is [w, t, lr], an optimizer file
+["optim", t, lr] (`Opt`: per-parameter state id + learning-rate id; 0 = the initial rate).
 
 Glue only: the model functions (`planUpdate`, `exec`, `startSession`, `recorded`, `loadState`) and
 the spec's `recOk` / `exactLBOk` do the work. -/
 open Lean Proto PdtVerif.Checkpoint
 
-def trainD : Train := fun e s => (3 * s.1 + e, 5 * s.2 + e)
+/-- the harness's training: (w, t) ↦ (3w + e, 5t + e), learning rate left to the controller -/
+def trainD (red : List (Option Nat)) : Train :=
+  ⟨fun e s => (3 * s.1 + e, ⟨5 * s.2.t + e, s.2.lr⟩),
+   fun e => if e = 0 then none else (red[e - 1]?).join⟩
 
 def pathJ : Path → List Json
   | .model k => [strJ "model", natJ k]
@@ -24,7 +30,7 @@ def contentJ : Content → Json
   | .empty => Json.arr #[strJ "empty"]
   | .torn => Json.arr #[strJ "torn"]
   | .model w => Json.arr #[strJ "model", natJ w]
-  | .optim t => Json.arr #[strJ "optim", natJ t]
+  | .optim o => Json.arr #[strJ "optim", natJ o.t, natJ o.lr]
 
 def lineJ : Line → Json
   | .header => strJ "header"
@@ -50,14 +56,15 @@ def diskJ (d : Disk) : Json :=
   objJ [("files", Json.arr named.toArray), ("tmps", Json.arr tmps.toArray),
         ("csv", optJ (listJ lineJ) d.csv)]
 
-def stateJ : Option (Nat × Nat) → Json
+def stateJ : Option St → Json
   | none => Json.null
-  | some (w, t) => Json.arr #[natJ w, natJ t]
+  | some (w, o) => Json.arr #[natJ w, natJ o.t, natJ o.lr]
 
 structure Cfg where
   Q : Quirks
   P : Params
   vals : List (Option Int)
+  tr : Train
 
 def recJ (c : Cfg) (d : Disk) : Json :=
   match recorded d with
@@ -66,10 +73,10 @@ def recJ (c : Cfg) (d : Disk) : Json :=
     let b := bestOf (c.vals.take k)
     objJ [("readable", boolJ true), ("k", natJ k), ("best", natJ b),
           ("load_last", stateJ (loadState c.P d k)), ("load_best", stateJ (loadState c.P d b)),
-          ("want_last", stateJ (some (U trainD k))), ("want_best", stateJ (some (U trainD b))),
-          ("rec", boolJ (recOk c.P c.vals trainD d)),
+          ("want_last", stateJ (some (U c.tr k))), ("want_best", stateJ (some (U c.tr b))),
+          ("rec", boolJ (recOk c.P c.vals c.tr d)),
           ("exact_lb", boolJ (exactLBOk c.P c.vals d k)),
-          ("all_loadable", boolJ ((List.range' 1 k).all (fun j => decide (loadState c.P d j = some (U trainD j)))))]
+          ("all_loadable", boolJ ((List.range' 1 k).all (fun j => decide (loadState c.P d j = some (U c.tr j)))))]
 
 structure CrashIn where
   epoch : Nat
@@ -90,11 +97,11 @@ structure SessOut where
   disk : Disk
 
 /-- the in-process loop: `fuel` updates at most. -/
-def loopS (c : Cfg) (crash : Option CrashIn) : Nat → Nat → Nat × Nat → Disk → List Json → SessOut
+def loopS (c : Cfg) (crash : Option CrashIn) : Nat → Nat → St → Disk → List Json → SessOut
   | 0, k, _, d, ups => { status := "completed", atEpoch := some k, updates := ups.reverse, disk := d }
   | fuel + 1, k, s, d, ups =>
     let e := k + 1
-    let s' := trainD e s
+    let s' := c.tr.step e s
     match planUpdate c.Q c.P c.vals k d s' with
     | .error _ => { status := "refused", atEpoch := some e, updates := ups.reverse, disk := d }
     | .ok (main, cl) =>
@@ -180,7 +187,10 @@ def parseCfg (c : Json) : Except String Cfg := do
   let ok ← getNatList c "okeys"
   let bit ← getBool c "best_is_train"
   let ms ← getList parsePair c "metrics"
-  pure ⟨Q, ⟨keep, keyFn mk, keyFn ok⟩, deciding bit ms⟩
+  let red ← match fieldOpt c "red" with
+    | none => pure []
+    | some r => jsonToList (jsonToOption (fun j => j.getNat?)) r
+  pure ⟨Q, ⟨keep, keyFn mk, keyFn ok⟩, deciding bit ms, trainD red⟩
 
 def c16Run : Handler := fun j => do
   let c ← parseCfg j
